@@ -575,7 +575,7 @@ impl SparqlDatabase {
             } else if o.starts_with("http://") || o.starts_with("https://") {
                 format!("<{}>", o)
             } else {
-                format!("\"{}\"", o)
+                format!("\"{}\"", escape_ntriples_literal(&o))
             };
 
             output.push_str(&format!("{} {} {} .\n", s_str, p_str, o_str));
